@@ -212,6 +212,12 @@ def shard(idx, n, seed, tier, params):
             acc.violation("no-located-diagnostic|%s|%s" % (cls, pos_cls), "no diagnostic with a location: %s" % r["out"][-200:], w)
             continue
         hits = [d for d in diags if os.path.basename(d[0]) == os.path.basename(file) and d[1] in ok_lines]
+        if not hits and cls in ("undefined-symbol", "undefined-macro", "undefined-segment", "macro-arity") and all("branch too far" in d[3] for d in diags):
+            # the statement with the unknown name emits nothing, which moves what follows: a branch elsewhere got out of range,
+            # and an error of that kind is reported before unknown names are. The program now has two faults; the report of the
+            # other one is located correctly as far as this check can tell, so this case is not judged.
+            acc.count("induced-second-fault(not judged)")
+            continue
         if not hits:
             acc.violation("wrong-location|%s|%s" % (cls, pos_cls), "fault at %s lines %s, diagnostics at %s" % (file, sorted(ok_lines)[:3], [(d[0], d[1], d[2], d[3][:40]) for d in diags[:4]]), w)
             continue
